@@ -5,7 +5,11 @@ import json, os, re, shutil, subprocess, sys
 HOME = os.path.dirname(os.path.dirname(os.path.abspath(__file__)))
 wt, pid, n = sys.argv[1], sys.argv[2], sys.argv[3]
 extra = sys.argv[4:]
-dst = os.path.join(HOME, "seeded", f"{pid}-{n}")
+out_n = n
+if "--as" in extra:  # store seed<n> of the worktree as seeded/<ID>-<out_n> (later rounds)
+    i = extra.index("--as"); out_n = extra[i + 1]; extra = extra[:i] + extra[i + 2:]
+dst = os.path.join(HOME, "seeded", f"{pid}-{out_n}")
+old = json.load(open(os.path.join(dst, "meta.json"))) if os.path.exists(os.path.join(dst, "meta.json")) else {}
 os.makedirs(dst, exist_ok=True)
 shutil.copy(os.path.join(wt, f"seed{n}.diff"), os.path.join(dst, "patch.diff"))
 shutil.copy(os.path.join(wt, f"demo{n}.py"), os.path.join(dst, "demo.py"))
@@ -31,9 +35,13 @@ meta = {
     "confirmed": {
         "demo_passes_without_change_and_fails_with_it": "demo: without change rc=0, with change rc=1" in out,
         "existing_tests": "the author ran the relevant test files and the full suite with the change applied (see needs_to_manifest / NOTES); re-run of the touched test files by the main session where noted in DESIGN.md",
-        "ran": f"tools/seedtest.py seeded/{pid}-{n}/patch.diff {pid} " + " ".join(extra),
+        "ran": f"tools/seedtest.py seeded/{pid}-{out_n}/patch.diff {pid} " + " ".join(extra),
     },
     "checks": status,
 }
+meta["first_result"] = old.get("first_result", status)  # what the check said the first time it met this change
+for k in ("summary", "strengthening", "round"):
+    if k in old:
+        meta[k] = old[k]
 json.dump(meta, open(os.path.join(dst, "meta.json"), "w"), indent=1)
 print("->", dst, status)
